@@ -31,7 +31,7 @@ func init() {
 			"ctx.File serves through a process-global FS instance; to keep episodes independent the same handler is exercised through ctx.FileFromFS with an identically configured per-episode FS",
 			"for syntactically invalid or multi-range Range headers any RFC-permitted answer is accepted (full 200, 206 of the first range, 416)",
 		},
-		RequiredProbes: []string{"range-closed", "range-open", "range-suffix", "range-unsatisfiable", "range-invalid", "range-multi", "range-overflow", "special-file-name", "empty-file", "big-file", "small-file", "head", "ims-304", "traversal", "index-file", "concurrent-same-file", "reader-stall", "client-rst", "cache-expired", "ctx-file-route", "dir-listing", "dir-listing-big", "compress-on", "gzip-response", "final-request", "hot-file", "file-modified-older", "file-modified-newer"},
+		RequiredProbes: []string{"range-closed", "range-open", "range-suffix", "range-unsatisfiable", "range-invalid", "range-multi", "range-overflow", "special-file-name", "empty-file", "big-file", "small-file", "head", "ims-304", "traversal", "index-file", "concurrent-same-file", "reader-stall", "client-rst", "cache-expired", "ctx-file-route", "dir-listing", "dir-listing-big", "compress-on", "gzip-response", "final-request", "hot-file", "file-modified-older", "file-modified-newer", "file-removed"},
 	}
 }
 
@@ -152,8 +152,9 @@ func c08PrivateTree() string {
 
 // c08ver is one version of a file's content.
 type c08ver struct {
-	data  []byte
-	mtime time.Time
+	data    []byte
+	mtime   time.Time
+	deleted bool // the file was removed (compressed siblings hertz made of it stay behind)
 }
 
 type c08req struct {
@@ -485,7 +486,21 @@ func RunC08(ep *core.Episode) {
 					name := modTargets[tp.Choose("modfile", len(modTargets))]
 					cur := versions[name]
 					n := len(cur[0].data)
-					switch tp.Choose("modsize", 4) {
+					pth := filepath.Join(root, name)
+					ms := tp.Choose("modsize", 5)
+					if ms == 4 {
+						// the file is removed; whatever compressed sibling hertz wrote next to it stays behind
+						if cur[len(cur)-1].deleted {
+							return
+						}
+						os.Remove(pth)
+						c08PrivDirty[name] = true
+						versions[name] = append(cur, c08ver{deleted: true})
+						ep.Fault("file-removed")
+						ep.Logf("fs: %s removed", name)
+						return
+					}
+					switch ms {
 					case 1:
 						n++
 					case 2:
@@ -501,7 +516,6 @@ func RunC08(ep *core.Episode) {
 						kind = "file-modified-older"
 					}
 					v := c08ver{data: core.PatternBytes(byte(37*len(cur)+n%200), n), mtime: c08MTime.Add(hrs)}
-					pth := filepath.Join(root, name)
 					os.WriteFile(pth+".new", v.data, 0o644)
 					os.Chtimes(pth+".new", v.mtime, v.mtime)
 					os.Rename(pth+".new", pth)
@@ -757,6 +771,12 @@ func c08CheckResp(ep *core.Episode, conn string, i int, r *c08req, m *wire.Msg, 
 
 // c08Match judges one response against one version of the file; "" means it fits.
 func c08Match(r *c08req, m *wire.Msg, body []byte, gz, head, useRange bool, v c08ver, strictMTime bool) (string, string) {
+	if v.deleted {
+		if m.Status != 404 {
+			return "C08.body", fmt.Sprintf("the file does not exist any more, answered %d with %d body bytes", m.Status, len(body))
+		}
+		return "", ""
+	}
 	file := v.data
 	n := len(file)
 	md := modelRange(r.rng, n, useRange)
